@@ -21,6 +21,7 @@ func VerifC13_Name() {
 	name := verifString("name", verifParam("maxlen", 5))
 	r := &subRegistry{prefix: prefix}
 	mapped := r.repo(name)
+	verifObserve("mapped", mapped)
 	verifAssert(c13inside(prefix, mapped), "mapped-name-stays-under-prefix")
 	// clean relative names map to prefix/name exactly
 	clean := name != "" && !strings.Contains(name, "//") && !strings.HasPrefix(name, "/") && !strings.HasSuffix(name, "/")
